@@ -188,6 +188,11 @@ impl AssocFileData {
         self.scopes.depth() == 1
     }
 
+    /// Whether the code being parsed is (anywhere) inside of the body of a function, method or constructor.
+    pub fn is_inside_function(&self) -> bool {
+        self.scopes.iter().any(|scope| scope.is_function())
+    }
+
     pub fn get_type_from_str(&self, ty: &str) -> TypeSearchResult {
         self.scopes.get_type_from_str(ty)
     }
